@@ -1441,6 +1441,8 @@ int ex_command(char *ln)
 		ret = 1;
 	if (!ex_depth)
 		ex_deep = 0;
+	if (xrow >= lbuf_len(xb))	/* the command made the buffer shorter */
+		xrow = MAX(0, lbuf_len(xb) - 1);
 	lbuf_modified(xb);
 	return ret;
 }
